@@ -2,6 +2,7 @@
 //! canonical result line per case.  The Coq model prints the same format for the same file.
 mod util;
 mod tagcases;
+mod cmdcases;
 
 use std::io::{BufRead, Write};
 
@@ -30,6 +31,7 @@ fn main() {
 fn dispatch(toks: &[&str]) -> String {
     match toks[0] {
         "tag_list" | "tag_parse" | "tag_cmp" | "sub" | "sub_list" | "tag_rt" => tagcases::run(toks),
+        "cmd_build" | "cmd_args" | "cmd_list" | "escape" => cmdcases::run(toks),
         other => format!("unknown-kind {}", other),
     }
 }
